@@ -41,10 +41,13 @@ Inductive pkind :=
 | KType | KConstraint (name : string) | KAbsence | KExceed | KTupleExceed | KAliasConflict
 | KDepth | KParamsExceed | KParamsLack | KDependencies | KOneOf | KNegate | KCollected | KWrapped.
 
-Record exn := mkExn { ex_cls : ecls; ex_kind : pkind; ex_item : option pyval }.
+(* ex_sub: for a CollectedParseError, the (kind, item) of each collected error *)
+Record exn := mkExn { ex_cls : ecls; ex_kind : pkind; ex_item : option pyval;
+                      ex_sub : list (pkind * option pyval) }.
 
-Definition parse_err (k : pkind) : exn := mkExn XParse k None.
-Definition other_err (c : ecls) : exn := mkExn c KWrapped None.
+Definition parse_err (k : pkind) : exn := mkExn XParse k None [].
+Definition parse_err_at (k : pkind) (item : pyval) : exn := mkExn XParse k (Some item) [].
+Definition other_err (c : ecls) : exn := mkExn c KWrapped None [].
 Definition is_parse_err (e : exn) : bool :=
   match ex_cls e with XParse => true | _ => false end.
 (* `except (TypeError, ValueError)`: ParseError is both *)
@@ -92,7 +95,7 @@ Fixpoint mapM {A B} (f : A -> out B) (xs : list A) : out (list B) :=
   | x :: r => let* y := f x in let* ys := mapM f r in Ok (y :: ys)
   end.
 
-(* ---- structural (syntactic) equality on values ---- *)
+(* ---- structural equality on values (sets compared as sets) ---- *)
 Definition flt_eqb (a b : flt) : bool :=
   match a, b with
   | FNan, FNan => true
@@ -127,6 +130,14 @@ Fixpoint val_eqb (a b : pyval) {struct a} : bool :=
     | (k, v) :: xr, (k', v') :: yr => String.eqb k k' && val_eqb v v' && skvl xr yr
     | _, _ => false
     end in
+  (* sets are unordered: every element of xs is structurally equal to some element of ys *)
+  let fix sub (xs ys : list pyval) {struct xs} : bool :=
+    match xs with
+    | [] => true
+    | x :: xr =>
+        (fix mem (l : list pyval) : bool :=
+           match l with [] => false | y :: yr => val_eqb x y || mem yr end) ys && sub xr ys
+    end in
   match a, b with
   | PNone, PNone => true
   | PBool x, PBool y => Bool.eqb x y
@@ -137,8 +148,8 @@ Fixpoint val_eqb (a b : pyval) {struct a} : bool :=
   | PBytes x, PBytes y => String.eqb x y
   | PList x, PList y => lst x y
   | PTuple x, PTuple y => lst x y
-  | PSet x, PSet y => lst x y
-  | PFrozen x, PFrozen y => lst x y
+  | PSet x, PSet y => Nat.eqb (List.length x) (List.length y) && sub x y
+  | PFrozen x, PFrozen y => Nat.eqb (List.length x) (List.length y) && sub x y
   | PDict x, PDict y => kvl x y
   | PInst c x, PInst c' y => Nat.eqb c c' && skvl x y
   | PEnumV e i, PEnumV e' i' => Nat.eqb e e' && Nat.eqb i i'
